@@ -537,7 +537,8 @@ class CircuitTemplate(AbstractBaseTemplate):
                 columns.append(key)
                 data.append(out)
         if multi_index:
-            columns = MultiIndex.from_tuples(columns)
+            # plain keys next to tuple keys must stay whole (a bare string would be split into its characters)
+            columns = MultiIndex.from_tuples([c if isinstance(c, tuple) else (c,) for c in columns])
         results = DataFrame(data=np.asarray(data).T, columns=columns, index=time_vec)
 
         # store current state of the network (a call with in_place=False leaves the template as it was)
